@@ -17,7 +17,7 @@ EXTENDS MtailLang, Json
 
 CONSTANTS SeedLo, SeedHi, \* seeds to run: SeedLo..SeedHi
           SeedSet,        \* ... or, when non-empty, exactly these seeds
-          Profile       \* "lang" (C01), "fold" (C02), "time" (C05/C07), "fmt" (C23)
+          Profile       \* "lang" (C01), "fold" (C02), "time" (C05/C07), "leak" (C05), "fmt" (C23), "loose" (C04)
 
 Rnd(s) == LET hi == s \div 127773  lo == s % 127773  t == 16807 * lo - 2836 * hi
           IN IF t > 0 THEN t ELSE t + 2147483647
@@ -75,6 +75,7 @@ GenPatterns(n, acc, s) == IF n = 0 THEN G(acc, s)
 
 -----------------------------------------------------------------------------
 (* Expressions.  scope = sequence of visible captures [p, g, k, name]      *)
+OneTok(pats) == {i \in 1..Len(pats) : pats[i].w = <<>> /\ Len(pats[i].caps) = 1}      \* patterns that can match a one-token string
 CapsOf(scope, k) == SelectSeq(scope, LAMBDA c : c.k = k)
 Lit(ty, s) == CASE ty = "int"   -> [n |-> "int", v |-> <<0, 1, 2, 3, 5, 7, 10, 20, -1, -4>>[Ch(s, 10)]]
                 [] ty = "float" -> [n |-> "float", v |-> << <<1,2>>, <<3,2>>, <<2,1>>, <<1,4>>, <<5,2>>, <<-3,2>>, <<10,1>> >>[Ch(s, 7)]]
@@ -240,20 +241,24 @@ GenCond(pats, scope, s) ==
   LET s1 == Rnd(s)  s2 == Rnd(s1)
       p == Ch(s1, Len(pats))
       sc == ScopeWith(pats, p, scope)
-      c == Ch(s, 12)
+      c0 == Ch(s, 12)
       se == ScopeElse(pats, p, scope)
+      c == IF Profile = "leak" /\ c0 \in 5..11 THEN 11 ELSE c0     \* profile leak (C05): mostly match sites behind a short-circuit
   IN IF c <= 6 THEN G([c |-> [n |-> "pat", p |-> p], scope |-> sc, escope |-> se], s2)
      ELSE IF c <= 8 THEN LET r == GenCmp(sc, 1, s2) IN G([c |-> Bin("&&", [n |-> "pat", p |-> p], r.x), scope |-> sc, escope |-> se], r.s)
      ELSE IF c = 9 THEN LET r == GenCmp(se, 1, s2) IN G([c |-> Bin("||", [n |-> "pat", p |-> p], r.x), scope |-> sc, escope |-> se], r.s)
      ELSE IF c = 10 THEN LET r == GenCmp(scope, 1, s2) IN G([c |-> r.x, scope |-> scope, escope |-> scope], r.s)
+     ELSE IF c = 11 /\ OneTok(pats) = {} THEN LET r == GenCmp(scope, 1, s2) IN G([c |-> r.x, scope |-> scope, escope |-> scope], r.s)
      ELSE IF c = 11 THEN
           \* comparison || / && (string =~ /pattern with captures/) : the match instruction runs only when the
           \* comparison does not decide; the block may refer to the pattern's captures
           LET r == GenCmp(scope, 0, s2)
               a == GenLeafNoVar("string", scope, r.s)
               slot == 1000 + (a.s % 1000000)                    \* a capture slot of this match site alone
-          IN G([c |-> Bin(IF Coin(a.s, 2, 3) THEN "||" ELSE "&&", r.x, [n |-> "pmatch", l |-> a.x, p |-> p, slot |-> slot]),
-                scope |-> ScopeWithSlot(pats, p, scope, slot), escope |-> se], Rnd(a.s))
+              \* a pattern that can match a one-token string: no literal word, one capture
+              q == CHOOSE x \in OneTok(pats) : \A y \in OneTok(pats) : (x + a.s) % 7 <= (y + a.s) % 7 \/ x = y
+          IN G([c |-> Bin(IF Coin(a.s, 2, 3) THEN "||" ELSE "&&", r.x, [n |-> "pmatch", l |-> a.x, p |-> q, slot |-> slot]),
+                scope |-> ScopeWithSlot(pats, q, scope, slot), escope |-> ScopeElse(pats, q, scope)], Rnd(a.s))
      ELSE LET a == GenLeaf("string", scope, s2)
               lit == << <<"f","o">>, <<"a">>, <<"l","o","g","A">>, <<"B">> >>[Ch(a.s, 4)]
           IN G([c |-> [n |-> "smatch", l |-> a.x, s |-> lit, a |-> Coin(a.s, 1, 2), neg |-> Coin(Rnd(a.s), 1, 3)], scope |-> scope, escope |-> scope], Rnd(Rnd(a.s)))
@@ -288,7 +293,7 @@ GenWrite(scope, depth, s) ==          \* an assignment-like statement
        IN G([n |-> "expr", e |-> [n |-> "addassign", m |-> d.name, idx |-> ix.x, r |-> r.x]], r.s)
   ELSE IF c = 13 THEN \* tm = timestamp()
        G([n |-> "expr", e |-> [n |-> "assign", m |-> "tm", idx |-> <<>>, r |-> Call("timestamp", <<>>)]], s1)
-  ELSE IF Profile \in {"lang", "time", "loose"} /\ Coin(s1, 1, 4) THEN      \* ++ on a histogram: accepted, panics in the VM
+  ELSE IF Profile \in {"lang", "time", "loose", "leak"} /\ Coin(s1, 1, 4) THEN      \* ++ on a histogram: accepted, panics in the VM
        G([n |-> "expr", e |-> [n |-> "inc", m |-> "hh", idx |-> <<>>]], s2)
   ELSE                \* settime(int)
        LET a == GenExpr("int", scope, IF Profile = "loose" THEN 1 ELSE 0, s1) IN G([n |-> "expr", e |-> Call("settime", <<a.x>>)], a.s)
